@@ -42,10 +42,12 @@ EXPLANATION = ("Theorems: for every covered operation guard_<op> (transliteratio
                "implicit checks and early returns included; mode selection is the tt_dimscheck regenerated from "
                "pyttb_utils.py on this run; linear indices go through the regenerated tt_ind2sub, matricisations through the regenerated "
                "gather_wrap_dims; the first step of every mttkrp is bridged to the regenerated get_mttkrp_factors) rejects exactly when pre_<op> fails (guard = decide pre, for all arguments); where the "
-               "code is still weaker (known findings A-28, C19-N11, C19-N18; new C19-N27 sptensor.scale with a numpy vector on a receiver "
-               "without entries, C19-N28 tensor.ttsv on a non-cubical tensor with the element count of a cubical one, C19-N29 ttensor.reconstruct with negative / repeated modes) the full statement is refuted by a witness, "
+               "code is still weaker (known findings A-28, C19-N11, C19-N18; C19-N29 ttensor.reconstruct with negative / repeated modes, repair 9d2314a pending) "
+               "the full statement is refuted by a witness, "
                "the partial version is proved and the answered set is characterised exactly (C19_tenmat_ctor_exact/_gap, "
-               "C19_from_aggregator_no_rows, C19_sptensor_scale_arr_exact/_gap, C19_ttsv_partial/_answers_wf, C19_reconstruct_exact/_gap); ktensor.update and sptensor.permute are "
+               "C19_from_aggregator_no_rows, C19_reconstruct_exact/_gap; C19_reconstruct_repaired: the method with the pending repair rejects exactly when the precondition fails, "
+               "and the correspondence runs that guard as soon as C19-N29 is listed as fixed); sptensor.scale with a numpy vector (C19-N27, repaired 98f7017) and tensor.ttsv "
+               "(C19-N28, repaired 0478ea5) are full theorems now (C19_sptensor_scale_arr, C19_ttsv); the witness inputs of all repaired findings stay in the stream (tags regression_*); ktensor.update and sptensor.permute are "
                "proved over the WHOLE methods regenerated from source (C19_ktensor_update_gen: the two-pass method raises exactly when the guard "
                "rejects, and never after its first assignment; C19_sptensor_permute_gen); the argument checks of sptensor.from_aggregator are the regenerated tt_subscheck / tt_valscheck / "
                "tt_sizecheck and the mode check of ktensor.redistribute is proved over the regenerated method (C19_mode_redistribute_gen). "
